@@ -12,6 +12,8 @@
 From Coq Require Import String ZArith Reals List Sorted.
 From FF Require Import Base.Ops Inst.RInst Base.RAlg Spec.Kron2 Spec.DigitPerm Spec.StrSort
      Model.Numeric Model.Remap Model.Tie.C06 Proofs.RemapIdx Proofs.RemapCov Proofs.Remap Proofs.RemapFinal Proofs.RemapEx.
+(* the comparison functions of the correspondence check are built with this file's dependency cone *)
+From FF Require Corr.RemapObs.
 Import ListNotations.
 Local Open Scope nat_scope.
 
